@@ -16,7 +16,8 @@ grapheme cluster is one `char` of width `cw`.
 * C01 "literals keep their value", "re-indentation after string line-continuations":
   `rewriteString_value`, `rewriteString_value_orig_partial`, `strip_value_counterexample`.
 * C03 "the words of every comment are preserved in order": `rewriteString_payload` (all inputs, all formats),
-  `rewriteString_words_counterexample` (a word is cut after a punctuation character).
+  `rewriteString_words_partial` (texts without punctuation: the word list is preserved),
+  `rewriteString_words_counterexample` (a word is cut after a punctuation character), `breakString_words_partial`.
 * C02 "re-breaking at the same width is the identity": `rewriteString_idem_partial`,
   `rewriteString_idem_counterexample`; the lines fit: `breakString_fits`, `rewriteString_fits`.
 * C16 (no slice out of range, termination): `breakString_bounds`, `breakString_progress`,
@@ -244,7 +245,7 @@ theorem breakString_words_partial (maxWidth : Nat) (lineEnd input line : List Ch
     words line ++ words (input.drop len) = words input := by
   have hs := breakString_step maxWidth true lineEnd input
   rw [h] at hs
-  exact hs.words (noPunctBreak_of_B hnp)
+  exact hs.wordsLine (noPunctBreak_of_B hnp)
 
 /-- non-vacuity: the unit test `big_whitespace` (a run of blanks at the break is dropped, no word is) -/
 example : noPunctBreakB "Neque in sem            Pellentesque tellus augue".toList = true ∧
@@ -252,6 +253,66 @@ example : noPunctBreakB "Neque in sem            Pellentesque tellus augue".toLi
       = .lineEnd "Neque in sem".toList 24 ∧
     words "Neque in sem".toList ++ words ("Neque in sem            Pellentesque tellus augue".toList.drop 24)
       = words "Neque in sem            Pellentesque tellus augue".toList := by decide
+
+/-- The format `CommentRewrite` hands to `rewrite_string` (comment.rs:628-636): no opener, closer or line end,
+trimmed lines, and a line start that is empty or ends in white space (`// `, ` * `, `/// `, …). -/
+structure IsCommentFormat (f : Fmt) : Prop where
+  trim : f.trimEnd = true
+  opener : f.opener = []
+  closer : f.closer = []
+  lineEnd : f.lineEnd = []
+  lineStart : f.lineStart = [] ∨ ∃ l w, f.lineStart = l ++ [w] ∧ isWs w = true
+
+/-- **C03, the words of a wrapped comment line** (`_partial`: the text holds no punctuation character other
+than a backslash, so that `break_string` can only break at white space — `rewriteString_words_counterexample`
+shows what happens otherwise).  The white-space separated words of what `rewrite_string` returns are the
+words of the input, in order, with the word of the line start (`//`, `*`, `///`) inserted where a new line
+begins: no word is lost, split, merged or reordered, for every text (line feeds included), width and shape. -/
+theorem rewriteString_words_partial (orig : List Char) (f : Fmt) (newlineMax : Nat) (hf : IsCommentFormat f)
+    (hnp : noPunct (stripLineBreaks orig) = true) (r : List Char)
+    (h : rewriteString orig f newlineMax = .ok (some r)) :
+    Woven [words f.lineStart] (words (stripLineBreaks orig)) (words r) := by
+  unfold rewriteString at h
+  cases h1 : f.maxWidthWithIndent with
+  | none => simp [h1] at h
+  | some mwWith =>
+    cases h2 : f.maxWidthWithoutIndent with
+    | none => simp [h1, h2] at h
+    | some mwWithout =>
+      cases h3 : f.loopCfg newlineMax mwWith mwWithout with
+      | error e => simp [h1, h2, h3] at h
+      | ok k =>
+        cases h4 : rewriteRaw k f.opener f.closer orig with
+        | none => simp [h1, h2, h3, h4] at h
+        | some raw =>
+          simp only [h1, h2, h3, h4] at h
+          split at h
+          · simp only [Except.ok.injEq, Option.some.injEq] at h
+            subst h
+            obtain ⟨ht, hls, hle, hbare, hnl, hnonl⟩ := loopCfg_ok h3
+            have hic := all_isWs_of_all_isContWs (indentChars_contWs f.shape.indent f.config)
+            have hk : CommentLike k :=
+              { trim := by rw [ht, hf.trim]
+                lineEnd := by rw [hle, hf.lineEnd]
+                blank := { nl := by rw [hnl]; simp only [List.all_cons, hic, Bool.and_true]; decide
+                           noNl := by rw [hnonl]; exact hic }
+                nlNe := by rw [hnl]; simp
+                bare := by rw [hbare, hls]
+                lineStart := by rw [hls]; exact hf.lineStart }
+            rw [hf.opener, hf.closer] at h4
+            have := rewriteRaw_words k hk orig raw hnp h4
+            rwa [hls] at this
+          · simp at h
+
+/-- non-vacuity: three lines, the word `//` woven in twice -/
+example : noPunct (stripLineBreaks "Aenean metus Vestibulum ac lacus".toList) = true ∧
+    rewriteString "Aenean metus Vestibulum ac lacus".toList
+      { opener := [], closer := [], lineStart := "// ".toList, lineEnd := [], shape := ⟨13, ⟨4, 0⟩, 0⟩, trimEnd := true,
+        config := ⟨false, 4, 100, 80⟩ } 13
+      = .ok (some "Aenean metus\n    // Vestibulum ac\n    // lacus".toList) ∧
+    words "Aenean metus\n    // Vestibulum ac\n    // lacus".toList
+      = ["Aenean".toList, "metus".toList, "//".toList, "Vestibulum".toList, "ac".toList, "//".toList, "lacus".toList] := by
+  decide +kernel
 
 /-! ## C02 / C07: the lines fit -/
 
